@@ -299,8 +299,8 @@ def labels_case(args):
                                subdiv_limit=None, progress_type="silent")
     fullf = oq.compute_dynamics_with_field(mfs, 0.5, process_tensor_list=[pt], initial_state_list=[M.RHO_PLUS],
                                            start_time=st, subdiv_limit=None, progress_type="silent")
-    for ns in range(1, NPT + 1):
-        xs = np.linspace(0.5, 1.5, 2 * ns).reshape(2 * ns, 1)
+    for ns in range(0, NPT + 1):
+        xs = np.linspace(0.5, 1.5, max(2 * ns, 2)).reshape(max(2 * ns, 2), 1)
         gfull = None
         for ra in (True, False):
             d = oq.compute_dynamics(system, M.RHO_PLUS, process_tensor=pt, start_time=st, num_steps=ns,
